@@ -488,6 +488,107 @@ func crash(kind string) func(Val) Val {
 	}
 }
 
+// ---------------------------------------------------------------- several flushes, crashes in between
+var pointNames = []string{"jsonfile:begin", "jsonfile:after-create", "jsonfile:after-write",
+	"jsonfile:after-sync", "jsonfile:after-close", "jsonfile:after-rename"}
+
+// a child that may or may not reach its crash point (nothing pending: no provider call)
+func runChildLoose(kind, file, logf, point string, delta Val) {
+	os.Remove(logf)
+	cmd := exec.Command(os.Args[0], "c18child", kind, file, logf, point, delta.String())
+	out, err := cmd.CombinedOutput()
+	if err == nil {
+		return
+	}
+	if ee, ok := err.(*exec.ExitError); ok && point != "" && ee.ProcessState.Sys().(syscall.WaitStatus).Signal() == syscall.SIGKILL {
+		return
+	}
+	panic(fmt.Sprintf("child failed: %v %s", err, out))
+}
+
+func dirMap(dir string) map[string]string {
+	m := map[string]string{}
+	ents, _ := ioutil.ReadDir(dir)
+	for _, e := range ents {
+		if b, err := ioutil.ReadFile(filepath.Join(dir, e.Name())); err == nil {
+			m[e.Name()] = string(b)
+		}
+	}
+	return m
+}
+
+// case (ops_old rounds) with round = (delta i k): the bytes each round's flush writes; a round whose
+// crash label is before the rename (i < 5) does not take effect
+func roundEncodings(kind string) func(Val) Val {
+	return func(c Val) Val {
+		dir := freshDir()
+		defer os.RemoveAll(baseDir)
+		file := filepath.Join(dir, "table.json")
+		t := newTable(kind)
+		t.configure(file)
+		t.reset()
+		runOps(t, c.At(0))
+		t.flush()
+		old, _ := readOpt(file)
+		datas := []Val{}
+		for _, r := range c.At(1).List() {
+			_, prev := readOpt(file)
+			had := exists(file)
+			t.reset()
+			runOps(t, r.At(0))
+			t.flush()
+			_, nb := readOpt(file)
+			datas = append(datas, B(nb))
+			if r.At(1).Int() < 5 {
+				restore(dir, file, prev, had)
+			}
+		}
+		return L(old, L(datas...))
+	}
+}
+
+// case (ops_old rounds old_file datas): every round is a child process on the directory as the previous
+// round left it (stray temporary files included); it dies at label (i, k); i = 5: it completes
+func recrash(kind string) func(Val) Val {
+	return func(c Val) Val {
+		dir := freshDir()
+		defer os.RemoveAll(baseDir)
+		file := filepath.Join(dir, "table.json")
+		logf := filepath.Join(baseDir, "log")
+		t := newTable(kind)
+		t.configure(file)
+		t.reset()
+		runOps(t, c.At(0))
+		t.flush()
+		outs := []Val{}
+		for _, r := range c.At(1).List() {
+			i, k := int(r.At(1).Int()), int(r.At(2).Int())
+			pre := dirMap(dir)
+			point := ""
+			if i >= 0 && i < 5 {
+				point = pointNames[i]
+			}
+			if k > 0 {
+				point = pointNames[2]
+			}
+			runChildLoose(kind, file, logf, point, r.At(0))
+			if k > 0 {
+				// the torn write: the file that is new or changed since the round began keeps k bytes
+				for name, content := range dirMap(dir) {
+					if old, ok := pre[name]; (!ok || old != content) && k < len(content) {
+						if err := ioutil.WriteFile(filepath.Join(dir, name), []byte(content[:k]), 0644); err != nil {
+							panic(err)
+						}
+					}
+				}
+			}
+			tgt, others, _ := snapshot(dir, file)
+			outs = append(outs, L(tgt, L(others...), loadFresh(kind, file)))
+		}
+		return L(outs...)
+	}
+}
+
 // the second server of the crash experiment, in its own process
 func childMain() {
 	kind, file, logf, point := os.Args[2], os.Args[3], os.Args[4], os.Args[5]
@@ -515,14 +616,18 @@ func childMain() {
 }
 
 var commands = map[string]func(Val) Val{
-	"C18_users":  history("u"),
-	"C18_routes": history("r"),
-	"C18_uenc":   encodings("u"),
-	"C18_renc":   encodings("r"),
-	"C18_utorn":  torn("u"),
-	"C18_rtorn":  torn("r"),
-	"C18_ucrash": crash("u"),
-	"C18_rcrash": crash("r"),
+	"C18_users":    history("u"),
+	"C18_routes":   history("r"),
+	"C18_uenc":     encodings("u"),
+	"C18_renc":     encodings("r"),
+	"C18_uencs":    roundEncodings("u"),
+	"C18_rencs":    roundEncodings("r"),
+	"C18_urecrash": recrash("u"),
+	"C18_rrecrash": recrash("r"),
+	"C18_utorn":    torn("u"),
+	"C18_rtorn":    torn("r"),
+	"C18_ucrash":   crash("u"),
+	"C18_rcrash":   crash("r"),
 }
 
 func main() {
